@@ -38,7 +38,7 @@ Proof. intros H Hr. apply assoc_path_In. destruct r; [contradiction|exact H]. Qe
    resolves to a member file of the specification. *)
 Theorem enumeration_partial fs cb ps out mem :
   wf fs -> names_plain fs ->
-  compile false (cb_lines cb) = CPats ps ->
+  compile false (cb_lines cb) = CPats ps -> notail ps ->
   (forall d, In d (cb_roots cb) -> lookup fs d = Some KDir) ->
   (forall r root, lookup fs r = Some KFile -> find_root (cb_roots cb) r = Some root ->
      parent_reinclude ps (rel_comps root r) = false /\ dir_reneg ps (rel_comps root r) = false) ->
@@ -46,9 +46,9 @@ Theorem enumeration_partial fs cb ps out mem :
   (forall r, In r mem -> In r out) /\
   (forall p, In p out -> exists r, resolve_comps fs [] p = Ok r /\ In r mem).
 Proof.
-  intros W Np Hc Hd Hg Hit Hmem.
+  intros W Np Hc NT Hd Hg Hit Hmem.
   assert (forall r, lookup fs r = Some KFile -> contains_resolved fs cb r = member_resolved fs cb r) as Heq.
-  { intros r Hl. apply (contains_eq_member fs cb r ps Hc (compile_indep _ _ Hc) Hd).
+  { intros r Hl. apply (contains_eq_member fs cb r ps Hc (compile_indep _ _ Hc) NT Hd).
     intros root Hf. apply (Hg r root Hl Hf). }
   unfold members in Hmem. pose proof (filter_res_In _ _ _ Hmem) as Hm.
   split.
